@@ -893,6 +893,149 @@ def ob_id_rules(ctx):
     return res
 
 
+def ob_relation_rules(ctx):
+    """C10 (relation rules): `check_e1200` (unknown job), `check_e1201` (unknown vehicle), `check_e1202` (no job in a relation),
+    `check_e1204` (a job pinned to two vehicles), `check_e1205` (shift index outside the vehicle's shifts) - real MIR, the job
+    index / vehicle map / job->vehicle map as association lists over the id strings - on two relations (2 + 1 job slots, a
+    slot may be empty) whose vehicle ids, shift indices and job ids are symbolic choices: each code is reported exactly when
+    its documented condition is broken."""
+    from symex import AMapV
+    name = 'relation_rules'
+    res = Result(name)
+    res.bounds = ('plan jobs j1, j2; fleet v1 (one shift), v2 (two shifts); two relations with 2 + 1 job slots, each slot empty or one of j1, j2, jX, departure; '
+                  'vehicle id from v1, v2, v9; shift index absent or 0..2')
+    t0 = time.time()
+    rules = {'E1200': 'check_e1200_job_existence', 'E1201': 'check_e1201_vehicle_existence', 'E1202': 'check_e1202_empty_job_list',
+             'E1204': 'check_e1204_job_assigned_to_multiple_vehicles', 'E1205': 'check_e1205_relation_has_correct_shift_index',
+             'E1206': 'check_e1206_relation_has_no_missing_shift_properties'}
+    none = lambda ty: mk_option(False, ty=ty)
+    RESERVED = ('departure', 'arrival', 'break', 'reload')
+    for code, fname in rules.items():
+        fn = ctx.prog.find_free(fname)
+
+        class Env(CheckerEnv):
+            symbolic_maps = True
+
+        env = Env(ctx.prog, ctx.layout, 16)
+        eng, _ = ctx.engines(env)
+
+        def body(st, env=env, eng=eng, fn=fn, code=code):
+            env.assumptions.clear()
+            rels, doc = [], []
+            for r, n_slots in enumerate((2, 1)):
+                if r == 1 and code in ('E1205', 'E1206'):
+                    # these rules look at one relation at a time: the second relation is a fixed valid one
+                    rels.append(env.struct('problem::model::Relation', type_field=EnumV('model::RelationType', 0, {}), jobs=VecV([Opaque('"j2"')]),
+                                           vehicle_id=Opaque('"v1"'), shift_index=none('Option<usize>')))
+                    doc.append({'vehicle': 'v1', 'shift': None, 'jobs': ['j2']})
+                    continue
+                cv = z3.Int(f'relation{r}_vehicle')
+                # only the inputs a rule looks at are symbolic for it
+                vid = eng.choose(st, [(cv == k, x) for k, x in enumerate(('v1', 'v2', 'v9'))]) if code in ('E1201', 'E1204', 'E1205') else \
+                    eng.choose(st, [(cv == 0, 'v1'), (cv == 1, 'v2')]) if code == 'E1206' else 'v1'
+                cs = z3.Int(f'relation{r}_shift')
+                shift = eng.choose(st, [(cs == k, x) for k, x in enumerate((None, 0, 1, 2))]) if code == 'E1205' else \
+                    eng.choose(st, [(cs == k, x) for k, x in enumerate((None, 0, 1))]) if code == 'E1206' else None
+                ids = []
+                for j in range(n_slots):
+                    cj = z3.Int(f'relation{r}_job{j}')
+                    jid = eng.choose(st, [(cj == k, x) for k, x in enumerate((None, 'j1', 'j2', 'jX', 'departure'))]) if code in ('E1200', 'E1202') else \
+                        eng.choose(st, [(cj == k, x) for k, x in enumerate((None, 'j1', 'j2', 'departure'))]) if code == 'E1204' else \
+                        eng.choose(st, [(cj == k, x) for k, x in enumerate(('j1', 'break', 'reload', 'arrival', 'departure'))]) if (code == 'E1206' and j == 0) else 'j1'
+                    if jid is not None:
+                        ids.append(jid)
+                rels.append(env.struct('problem::model::Relation', type_field=EnumV('model::RelationType', 0, {}), jobs=VecV([Opaque(f'"{x}"') for x in ids]),
+                                       vehicle_id=Opaque(f'"{vid}"'), shift_index=mk_option(True, IV(shift), ty='Option<usize>') if shift is not None else none('Option<usize>')))
+                doc.append({'vehicle': vid, 'shift': shift, 'jobs': ids})
+            relations = VecV(rels)
+            flags = {}
+
+            def mk_shift(vid_, i):
+                fl = {k: z3.Bool(f'{vid_}_shift{i}_has_{k}') for k in ('breaks', 'reloads', 'end')}
+                flags[(vid_, i)] = fl
+                return env.struct('problem::model::VehicleShift', start=Opaque('start'), end=mk_option(fl['end'], Opaque('end'), ty='Option<ShiftEnd>'),
+                                  breaks=mk_option(fl['breaks'], Opaque('breaks'), ty='Option<Vec<VehicleBreak>>'),
+                                  reloads=mk_option(fl['reloads'], Opaque('reloads'), ty='Option<Vec<VehicleReload>>'), recharges=none('Option<VehicleRecharges>'))
+            mk_vt = lambda n_shifts, vid_='v': Agg('struct', [VecV([mk_shift(vid_, i) for i in range(n_shifts)]) if f == 'shifts' else Opaque(f)
+                                                              for f in ctx.layout.fields('problem::model::VehicleType')], 'problem::model::VehicleType')
+            vehicle_map = AMapV([(Opaque('"v1"'), RefV(Cell(mk_vt(1, 'v1')), 0)), (Opaque('"v2"'), RefV(Cell(mk_vt(2, 'v2')), 0))])
+            job_index = AMapV([(Opaque('"j1"'), Opaque('job1')), (Opaque('"j2"'), Opaque('job2'))])
+            vctx = env.struct('validation::ValidationContext', problem=RefV(Cell(Opaque('problem')), 0), matrices=none('Option<&Vec<Matrix>>'),
+                              coord_index=RefV(Cell(Opaque('coord_index')), 0), job_index=job_index)
+            args = {'E1200': [RefV(Cell(vctx), 0), RefV(Cell(relations), 0)], 'E1201': [RefV(Cell(relations), 0), RefV(Cell(vehicle_map), 0)],
+                    'E1202': [RefV(Cell(relations), 0)], 'E1204': [RefV(Cell(relations), 0)], 'E1205': [RefV(Cell(relations), 0), RefV(Cell(vehicle_map), 0)],
+                    'E1206': [RefV(Cell(relations), 0), RefV(Cell(vehicle_map), 0)]}[code]
+            return (doc, eng.exec_fn(st, fn, args), flags)
+
+        paths = eng.explore(body, max_paths=20000)
+        res.paths += len(paths)
+        res.functions |= eng.functions_used
+        saw_ok = saw_err = False
+        for st, out in paths:
+            if out is None:
+                if not no_panic(ctx, res, env, st, what=name):
+                    break
+                continue
+            doc, r, flags = out
+            shifts_of = {'v1': 1, 'v2': 2}
+            first_vehicle = {}
+            multi = False
+            for rel in doc:
+                for j in rel['jobs']:
+                    if j in RESERVED:
+                        continue
+                    if first_vehicle.setdefault(j, rel['vehicle']) != rel['vehicle']:
+                        multi = True
+            broken = {
+                'E1200': any(j not in RESERVED and j not in ('j1', 'j2') for rel in doc for j in rel['jobs']),
+                'E1201': any(rel['vehicle'] not in shifts_of for rel in doc),
+                'E1202': any(all(j in RESERVED for j in rel['jobs']) for rel in doc),
+                'E1204': multi,
+                'E1205': any(rel['vehicle'] in shifts_of and (rel['shift'] or 0) >= shifts_of[rel['vehicle']] for rel in doc),
+                'E1206': None}[code]
+            if code == 'E1206':
+                # a reserved id names a property of THE shift the relation refers to
+                PROP = {'break': 'breaks', 'reload': 'reloads', 'arrival': 'end'}
+                terms = []
+                for rel in doc:
+                    sh = rel['shift'] or 0
+                    if rel['vehicle'] in shifts_of and sh < shifts_of[rel['vehicle']]:
+                        terms += [z3.Not(flags[(rel['vehicle'], sh)][PROP[j]]) for j in rel['jobs'] if j in PROP]
+                broken_t = z3.Or(*terms) if terms else z3.BoolVal(False)
+                if not decide_claim(ctx, res, env, st, (r.discr == 1) == broken_t, what=f'{name}: E1206 reported <=> a reserved id names a property the referenced shift lacks ({doc})'):
+                    if res.status == 'violated' and res.model is not None:
+                        m = res.model
+                        tv = lambda b: bool(z3.is_true(m.eval(b, model_completion=True)))
+                        res.case = {'kind': 'relation_rules', 'rule': code, 'broken': tv(broken_t), 'relations': doc,
+                                    'shift_flags': {f'{v}/{i}': {k: tv(b) for k, b in fl.items()} for (v, i), fl in flags.items()}}
+                    break
+                if not no_panic(ctx, res, env, st, what=name):
+                    break
+                saw_ok = saw_ok or witness(ctx, res, env, st, r.discr == 0)
+                saw_err = saw_err or witness(ctx, res, env, st, r.discr == 1)
+                continue
+            rep = r.variant()
+            if rep is None:
+                res.status, res.detail = 'inconclusive', 'symbolic result'
+                break
+            if not decide_claim(ctx, res, env, st, z3.BoolVal(bool(rep) == broken), what=f'{name}: {code} is {"reported" if rep else "not reported"}, rule {"broken" if broken else "kept"} for relations {doc}'):
+                if res.status == 'violated':
+                    res.case = {'kind': 'relation_rules', 'rule': code, 'broken': broken, 'relations': doc}
+                break
+            if not no_panic(ctx, res, env, st, what=name):
+                break
+            saw_ok = saw_ok or not broken
+            saw_err = saw_err or broken
+        if res.status != 'holds':
+            break
+        res.witnesses += int(saw_ok) + int(saw_err)
+        if not (saw_ok and saw_err):
+            res.status, res.detail = 'inconclusive', f'vacuous ({code}): ok={saw_ok} err={saw_err}'
+            break
+    res.time = time.time() - t0
+    return res
+
+
 def rules_problem(job, dims, costs=None):
     far = rfc3339(30 * 86400)
     return {'plan': {'jobs': [job]},
